@@ -43,7 +43,7 @@ type c06Stats struct {
 
 func runForgeScenarios(rng *rand.Rand, n int, st *c06Stats, fail func(prop, mon, key, detail string, c interface{})) {
 	ctx := context.Background()
-	kinds := []string{"nosig", "wrongsig", "nokey", "otherkey", "flipsig", "foreignid", "aclpayload", "forgedhead"}
+	kinds := []string{"nosig", "wrongsig", "nokey", "otherkey", "flipsig", "foreignid", "aclpayload", "forgedhead", "payload", "destkey"}
 	for it := 0; it < n; it++ {
 		w := newWorld()
 		// an access controller whose verdict depends on the entry, not only on its writer
@@ -90,6 +90,10 @@ func runForgeScenarios(rng *rand.Rand, n int, st *c06Stats, fail func(prop, mon,
 				cands = append(cands, e)
 			}
 		}
+		// every genuine entry has been verified once in this process (a replica merged the whole log)
+		if _, err := mk("D").Join(a, -1); err != nil {
+			panic(err)
+		}
 		victim := cands[rng.Intn(len(cands))]
 		kind := kinds[rng.Intn(len(kinds))]
 		forgedMap := entry.NewOrderedMap()
@@ -117,6 +121,10 @@ func runForgeScenarios(rng *rand.Rand, n int, st *c06Stats, fail func(prop, mon,
 				c.Key = nil
 			case "otherkey":
 				c.Key = w.idents["D"].PublicKey
+			case "destkey":
+				c.Key = w.idents["C"].PublicKey // the key of the very log that merges
+			case "payload":
+				c.Payload = append([]byte("tampered-"), e.GetPayload()...) // same hash, key and signature
 			}
 			forgedMap.Set(e.GetHash().String(), c)
 		}
@@ -520,6 +528,61 @@ func runGapScenarios(rng *rand.Rand, n int, st *c06Stats, fail func(prop, mon, k
 			}
 			if !eqStrings(sortedCopy(l.GetEntries().Keys()), sortedCopy(want)) {
 				fail("C16", "bounded-join-entries", "C16:wrong-entry-set", "entry set differs from the last min(n,total) entries of the unbounded merge", info)
+			}
+		}
+	}
+}
+
+// Appends that ask for pinning while the pinning service is down (C02, C17): the block is stored,
+// the pin fails, Append must fail and leave the log as it was - heads = unreferenced entries - and
+// the log must go on working.
+func runPinFaultScenarios(rng *rand.Rand, n int, st *c06Stats, fail func(prop, mon, key, detail string, c interface{})) {
+	ctx := context.Background()
+	for it := 0; it < n; it++ {
+		w := newWorld()
+		la, _ := ipfslog.NewLog(w.api, w.idents["A"], &ipfslog.LogOptions{ID: "L"})
+		lb, _ := ipfslog.NewLog(w.api, w.idents["B"], &ipfslog.LogOptions{ID: "L"})
+		logs := []*ipfslog.IPFSLog{la, lb}
+		st.aliasRuns++
+		info := map[string]interface{}{"scenario": "pinned appends with a failing pinning service", "seed_iteration": it}
+		check := func(l *ipfslog.IPFSLog, what string) {
+			ents := l.GetEntries().Slice()
+			if want := unreferenced(ents); !eqStrings(sortedCopy(hashesOf(l.Heads().Slice())), want) {
+				fail("C02", "heads-exact", "C02:heads-not-unreferenced", "heads are not the unreferenced entries "+what, info)
+			}
+			if len(l.Values().Slice()) != len(ents) {
+				fail("C03", "values-complete", "C03:incomplete", "Values() incomplete "+what, info)
+			}
+			for _, e := range ents {
+				if !w.dag.has(e.GetHash()) {
+					fail("C17", "entries-stored", "C17:entry-block-missing", "an entry of the log has no block "+what, info)
+				}
+			}
+		}
+		for s := 0; s < 8; s++ {
+			l := logs[rng.Intn(2)]
+			switch rng.Intn(4) {
+			case 0:
+				if _, err := l.Join(logs[rng.Intn(2)], -1); err != nil {
+					panic(err)
+				}
+				check(l, "after a merge")
+			case 1:
+				before := snapLog(l)
+				w.dag.failPin = true
+				_, err := l.Append(ctx, []byte(fmt.Sprintf("pin-fail-%d", s)), &ipfslog.AppendOptions{Pin: true, PointerCount: 2})
+				w.dag.failPin = false
+				if err == nil {
+					fail("C17", "failed-pin-reports-error", "C17:pin-failure-swallowed", "Append with Pin returned success although pinning failed", info)
+				} else if after := snapLog(l); len(after.entries) != len(before.entries) || !eqStrings(after.values, before.values) {
+					fail("C05", "failed-append-unchanged", "C05:failed-append-changed-log", "an append whose pin failed changed the log", info)
+				}
+				check(l, "after an append whose pin failed")
+			default:
+				if _, err := l.Append(ctx, []byte(fmt.Sprintf("p%d", s)), &ipfslog.AppendOptions{Pin: rng.Intn(2) == 0}); err != nil {
+					panic(err)
+				}
+				check(l, "after an append")
 			}
 		}
 	}
